@@ -28,8 +28,9 @@ def raise_for(f, director, key, phase, oserr=False, **extra):
 
 
 # ---------------------------------------------------------------- sources
-class SeekableSource:
-    """Seekable, readable user stream with logging and scripted faults."""
+class DuckSeekableSource:
+    """Seekable, readable user stream with logging and scripted faults.  This flavour has read/seek/tell only (no seekable()
+    or readable() methods), like wrapper classes and pre-3.11 SpooledTemporaryFile: the library has to probe it."""
 
     def __init__(self, world, label, data, start=0, read_caps=None):
         self.w, self.label = world, label
@@ -39,12 +40,6 @@ class SeekableSource:
         self.nreads = 0
         self.bytes_read = 0
         self.max_read_req = 0
-
-    def readable(self):
-        return True
-
-    def seekable(self):
-        return True
 
     def read(self, amt=None):
         d = self.w.director
@@ -77,6 +72,16 @@ class SeekableSource:
 
     def close(self):
         self.w.log.add('src.close', label=self.label)
+
+
+class SeekableSource(DuckSeekableSource):
+    """The io.IOBase-like flavour: declares itself through readable()/seekable()."""
+
+    def readable(self):
+        return True
+
+    def seekable(self):
+        return True
 
 
 class NonSeekableSource:
@@ -115,6 +120,33 @@ class NonSeekableSource:
         if f is not None:
             raise_for(f, d, key, 'after')
         return data
+
+
+class DeclaredNonSeekableSource(NonSeekableSource):
+    """Pipe-like io.IOBase flavour: seekable() says False; seek/tell exist and raise, as on a real pipe."""
+
+    def seekable(self):
+        return False
+
+    def seek(self, where, whence=0):
+        raise io.UnsupportedOperation('underlying stream is not seekable')
+
+    def tell(self):
+        raise io.UnsupportedOperation('underlying stream is not seekable')
+
+
+class RaisingSeekSource(NonSeekableSource):
+    """Has seek/tell but no seekable(): the library's probe (a relative seek by 0) fails with OSError."""
+
+    def seek(self, where, whence=0):
+        raise OSError(29, 'Illegal seek')
+
+    def tell(self):
+        raise OSError(29, 'Illegal seek')
+
+
+SEEKABLE_FLAVORS = {'declared': SeekableSource, 'duck': DuckSeekableSource}
+NONSEEKABLE_FLAVORS = {'bare': NonSeekableSource, 'declared': DeclaredNonSeekableSource, 'raising': RaisingSeekSource}
 
 
 # ------------------------------------------------------------------ sinks
@@ -447,6 +479,7 @@ class RecordingSubscriber(BaseSubscriber):
         self._reenter('on_queued', future)
         f = d.point(key, 'before')
         if f is not None:
+            self.w.log.add('cb.on_queued.ret', label=self.label, sub=self.name, raised=True)
             raise_for(f, d, key, 'before')
         self.w.log.add('cb.on_queued.ret', label=self.label, sub=self.name)
 
